@@ -615,3 +615,9 @@ for _p in ('C08', 'C12', 'C11'):
 
 # what the user sets later is what a reader gets (C05), also after an earlier value of another kind was written
 SPECS['C05']['obligations'] = SPECS['C05']['obligations'] + _reassign
+
+# the channel -> data set mapping is read afresh for every write (C11: sources / mapping; C14: no per-object state leaks)
+_remap = _pair('c11', 'remap', (200, 400), 'records generated once, then channel A re-pointed (dataset_name) or replaced by a same-named channel: dict / structured source, 1..3 rows, chunk 1..3',
+               ['FrameItem.channel_name_mapping', 'LogicalFile._make_multi_frame_data', 'ChannelItem.dataset_name'], replay=D + 'replay_remap', validate=D + 'replay_remap')
+for _p in ('C11', 'C14'):
+    SPECS[_p]['obligations'] = SPECS[_p]['obligations'] + _remap
